@@ -197,7 +197,17 @@ def client_shapes() -> dict[str, bool]:
     c = _calls(cl)
     out["closeEndsInputThenDrains"] = ("self._input_writer.close" in c and "new_ipc_stream" in c and "self._drain_output" in c
                                        and c.index("self._input_writer.close") < c.index("self._drain_output"))
+    def closed_first(fn: ast.FunctionDef) -> bool:
+        """`self._closed = True` is assigned before anything is written or read (so that a close()/cancel() that raises —
+        the on_log callback — cannot be run a second time by `with` / `finally`)."""
+        mark = next((i for i, s_ in enumerate(fn.body) if isinstance(s_, ast.Assign) and ast.unparse(s_) == "self._closed = True"), None)
+        io = next((i for i, s_ in enumerate(fn.body) if any(x in ("self._input_writer.close", "new_ipc_stream", "self._drain_output",
+                                                                 "ipc.open_stream", "self._input_writer.write_batch") for x in _calls(s_))), None)
+        return mark is not None and io is not None and mark < io
+
+    out["closeMarksClosedFirst"] = closed_first(cl)
     cn = _func(tree, "cancel")
+    out["cancelMarksClosedFirst"] = closed_first(cn)
     c = _calls(cn)
     out["cancelEndsInputThenDrains"] = ("self._input_writer.close" in c and "self._drain_output" in c and "CANCEL_KEY" in ast.unparse(cn))
     # stream caller: header read aborted by a non-RpcError exception closes a throw-away session
@@ -239,6 +249,14 @@ def wire_shapes() -> dict[str, bool]:
     out["hdrDrainOnErr"] = len(t) == 1 and drains_then_raises(_handler(t[0], "RpcError"))
     out["hdrDrainOnCb"] = len(t) == 1 and drains_then_raises(_handler(t[0], "Exception"))
     out["hdrDrainsAfterHeader"] = any(isinstance(s, ast.Expr) and "_drain_stream" in _calls(s) for s in h.body)
+    # `_write_request`: the request batch is built (argument -> Arrow conversion, which raises on values the parameter type
+    # cannot hold) BEFORE the IPC stream is opened, so a conversion error leaves nothing on the wire
+    wr = _func(tree, "_write_request")
+    w_i = next((i for i, s_ in enumerate(wr.body) if isinstance(s_, ast.With) and "new_ipc_stream" in _calls(s_)), None)
+    conv_i = [i for i, s_ in enumerate(wr.body) if any(c in ("pa.array", "_convert_for_arrow", "pa.RecordBatch.from_arrays") for c in _calls(s_))
+              and not isinstance(s_, ast.With)]
+    inside = w_i is not None and any(c in ("pa.array", "_convert_for_arrow", "pa.RecordBatch.from_arrays") for c in _calls(wr.body[w_i]))
+    out["requestBuiltBeforeStream"] = w_i is not None and bool(conv_i) and max(conv_i) < w_i and not inside
     r = _func(tree, "_read_request")
     first_drain = next((i for i, s in enumerate(r.body) if isinstance(s, ast.Expr) and _calls(s) == ["_drain_stream"]), None)
     first_raise = next((i for i, s in enumerate(r.body) if _has(s, ast.Raise) and not isinstance(s, ast.Try)), None)
@@ -251,7 +269,7 @@ def wire_shapes() -> dict[str, bool]:
 
 
 MODEL_FIELDS = ["drainVersion", "drainParams", "drainInit", "drainUnknown", "initChecks", "cliDrainOverErr", "cliDrainSurvivesCb",
-                "unaryDrainOnCb", "hdrDrainOnCb", "hdrAbortCloses", "emptyRequestReplies", "initErrorFlushesLogs", "failFlushesLogs", "unaryDrainBeforeDecode"]
+                "unaryDrainOnCb", "hdrDrainOnCb", "hdrAbortCloses", "emptyRequestReplies", "initErrorFlushesLogs", "failFlushesLogs", "unaryDrainBeforeDecode", "requestBuiltBeforeStream"]
 
 
 def emit() -> dict[str, str]:
@@ -280,6 +298,7 @@ structure Shape where
   initErrorFlushesLogs : Bool -- the error stream of a failed stream init carries the logs emitted before the failure
   failFlushesLogs : Bool     -- a failing process() call's logs are written ahead of its error batch
   unaryDrainBeforeDecode : Bool -- _read_unary_response drains to EOS before it validates / decodes the result value
+  requestBuiltBeforeStream : Bool -- _write_request converts the arguments before it opens the request's IPC stream
 deriving Repr, DecidableEq
 
 def shape : Shape := {{ {fields} }}
